@@ -285,8 +285,23 @@ func checkRoots(c RootsCase) error {
 		leaves := leavesOf(c.Seed, c.N)
 		t := newRefTree(leaves)
 		var acc blake2b.Accumulator
-		for _, l := range leaves {
+		// Root() is a query: asked in the middle of the stream (a host reporting its contract root after every
+		// upload) it reports the root of the leaves so far and changes nothing for the leaves still to come
+		mid := -1
+		if c.N > 1 && c.Seed&1 == 1 {
+			mid = int(c.Seed>>8) % c.N
+		}
+		for i, l := range leaves {
+			if i == mid {
+				if got, want := H(acc.Root()), mthOf(leaves[:i]); i > 0 && got != want {
+					return fail("Accumulator.Root after %d of %d leaves = %s want %s", i, c.N, short(got), short(want))
+				}
+				_ = acc.Root()
+			}
 			acc.AddLeaf(l)
+		}
+		if mid >= 0 {
+			labels = append(labels, "acc:root-queried-mid-stream")
 		}
 		if got := H(acc.Root()); got != t.root() {
 			return fail("Accumulator.Root = %s want %s", short(got), short(t.root()))
